@@ -40,6 +40,20 @@ class Color(enum.Enum):
     BLUE = 'blue'
 
 
+class Opaque:
+    """an arbitrary class no schema extractor can describe: refusing to generate is fine, an incomplete document is not"""
+
+
+class UserNotFound(exceptions.JsonRpcError):
+    code = 7501
+    message = 'user not found'
+
+
+class OrderNotFound(exceptions.JsonRpcError):       # ANOTHER error class with the same code, used by another method
+    code = 7501
+    message = 'order not found'
+
+
 # ---- atoms: each builds a fresh function (fresh annotations) every time -------------------------------------------------
 def sig_fn(sig, name, doc=None):
     if sig == 's0':
@@ -62,6 +76,9 @@ def sig_fn(sig, name, doc=None):
             pass
     elif sig == 's6':
         def f(c: Color, ctx=None) -> List[Model]:
+            pass
+    elif sig == 's7':
+        def f(a: int, o: Opaque) -> int:
             pass
     else:
         raise AssertionError(sig)
@@ -125,6 +142,10 @@ def bundle(b, name, shared):
         e1 = [exceptions.MethodNotFoundError, exceptions.InvalidParamsError]
         e2 = [exceptions.MethodNotFoundError, exceptions.InvalidParamsError]
         return dict(errors=e1), dict(errors=e2), [e1, e2]
+    if b in ('errsame-a', 'errsame-b'):
+        cls = UserNotFound if b == 'errsame-a' else OrderNotFound
+        e1, e2 = [cls], [cls]
+        return dict(errors=e1), dict(errors=e2), [e1, e2]
     if b == 'shared':
         # ONE list object given to several methods
         return dict(errors=shared['oa']), dict(errors=shared['orpc']), [shared['oa'], shared['orpc']]
@@ -160,6 +181,10 @@ CORE = [
     ('s5', 'misc', None), ('s0', 'schemas', None), ('s6', 'none', None), ('s4', 'none', 'draises'),
     ('s1', 'none', 'dnumpy'), ('s5', 'none', 'dbare'),
 ]
+# further atoms, combined with each other and with a few core atoms only (set 'corex' = CORE + EXTRA)
+EXTRA = [('s1', 'errsame-a', None), ('s5', 'errsame-b', None), ('s7', 'none', None), ('s7', 'errors', 'dparams')]
+COREX = CORE + EXTRA
+MAY_REFUSE = {'s7'}          # signatures an extractor may refuse to describe (generation raising is accepted for them)
 FULL = [(s, b, None) for s in ('s0', 's1', 's2', 's3', 's4', 's5', 's6') for b in ('none', 'errors', 'shared', 'tags', 'examples', 'prefix', 'misc', 'schemas')] + \
        [(s, 'none', d) for s in ('s1', 's4', 's5') for d in DOCSTRINGS] + [('s1', 'errors', 'draises'), ('s3', 'prefix', 'dparams')]
 
@@ -317,6 +342,18 @@ def gen_cases(ctx):
         for kind in ('openapi-3.1', 'openapi-3.0'):
             for idx in itertools.permutations(core, 2):
                 yield dict(set='core', atoms=idx, stack=stack, kind=kind, prefix='multi')
+    xs = list(range(len(CORE), len(COREX)))
+    for stack in ('pydantic', 'docstring', 'docstring+pydantic', 'default'):
+        for kind in KINDS:
+            for i in xs:
+                yield dict(set='corex', atoms=(i,), stack=stack, kind=kind, prefix='')
+                for j in xs + [0, 1, 2, 4]:
+                    if i != j:
+                        yield dict(set='corex', atoms=(i, j), stack=stack, kind=kind, prefix='')
+                        yield dict(set='corex', atoms=(j, i), stack=stack, kind=kind, prefix='')
+            if stack != 'default':
+                for i, j in ((len(CORE), len(CORE) + 1), (len(CORE) + 1, len(CORE))):
+                    yield dict(set='corex', atoms=(i, j), stack=stack, kind=kind, prefix='', sequence=True)
     full = list(range(len(FULL)))
     for stack in ('pydantic+docstring', 'docstring'):
         for kind in KINDS:
@@ -326,7 +363,7 @@ def gen_cases(ctx):
 
 
 def run_case(case, rec):
-    table = CORE if case['set'] == 'core' else FULL
+    table = {'core': CORE, 'corex': COREX}.get(case['set'], FULL)
     atoms = [table[i] for i in case['atoms']]
     kind, stack, prefix = case['kind'], case['stack'], case['prefix']
     path = '/api'
@@ -363,6 +400,11 @@ def run_case(case, rec):
             docs.append(spec.schema(path=path, methods_map=mmap(methods, prefixes), **gkw))
             rec.transitions += 1
     except Exception as e:   # noqa
+        if any(a[0] in MAY_REFUSE for a in atoms):
+            rec.outcomes['refused to document an opaque annotation'] += 1
+            rec.states += 1
+            rec.traces += 1
+            return 'refused'
         viol('generation raised %s (%s extractor)' % (type(e).__name__, stack), 'a document', '%s: %s' % (type(e).__name__, str(e)[:200]))
         return 'raised'
     # JSON-encodable
